@@ -354,7 +354,7 @@ def drive(ctx, mode, items, stage, timeout=7200):
     if cnt.get("infra", 0):
         ctx.save("driver_notes_%s.json" % stage, res.get("notes", []))
         raise Infra("%s: %d behaviours could not be executed: %s" % (stage, cnt["infra"], res.get("notes", [])[:3]))
-    nmm = cnt.get("mismatches_total", 0)
+    nmm = cnt.get("mismatching", 0)
     by_sig = {}
     for mm in res.get("mismatches") or []:
         by_sig.setdefault(mm.get("sig") or stage, []).append(mm)
